@@ -168,7 +168,11 @@ func decStr(d Dec) string {
 	if len(c) > 40 {
 		c = fmt.Sprintf("%s..(%d digits)", c[:30], len(c))
 	}
-	return fmt.Sprintf("%s%sE%d", s, c, d.E)
+	hp := ""
+	if d.Hp {
+		hp = "(heap)"
+	}
+	return fmt.Sprintf("%s%sE%d%s", s, c, d.E, hp)
 }
 
 var textFns = []struct {
